@@ -9,6 +9,7 @@ from .c02 import cb_invocations, cbset_leaf
 from .c01 import _result_var
 
 TITLE = "UDP keeps datagram boundaries and the peer-to-session mapping"
+TECHNIQUE = 'custom static analysis over clang-14 CFG facts: who-may-write tables for the peer index and datagram queue, owner-check dominance, must-lockset'
 UDP = "iora::network::UdpEngine"
 FILE = "iora/network/detail/udp_engine.hpp"
 SESS, LST, ODG = UDP + "::Session", UDP + "::Listener", UDP + "::OutDg"
